@@ -7,7 +7,10 @@ import os
 
 
 class Tracer(object):
-    def __init__(self, final, kill_at=None, torn=False):
+    def __init__(self, final, kill_at=None, torn=False, fail=False):
+        """fail: at the chosen operation the process is not killed: the operation FAILS (OSError: no space left on device, after half of the
+        buffered data was written if `torn`) and the code under test goes on as it is written — its handlers and finally blocks run"""
+        self.fail = fail
         self.final = os.path.realpath(final)
         self.ops = []
         self.ids = {}
@@ -35,6 +38,11 @@ class Tracer(object):
                     raw.write(part if isinstance(part, bytes) else part.encode())
                 except Exception:
                     pass
+            if self.fail:
+                import errno
+                self.kill_at = None          # once
+                self.failed = op
+                raise OSError(errno.ENOSPC, "No space left on device")
             os._exit(17)
         self.ops.append(op)
 
